@@ -204,11 +204,36 @@ class World:
             if r.random() < perturb:
                 del self.ctrs[c['id']]
                 continue
-            if r.random() < perturb:
+            if r.random() < perturb and c['_state'] != 'retired':
                 c['_state'] = 'stopped' if c['_state'] == 'stopped' else r.choice([c['_state'], 'running', 'stopped'])
             cc = {k: v for k, v in c.items() if not k.startswith('_')}
-            cc['state'] = c['_state']
+            cc['state'] = 'stopped' if c['_state'] == 'retired' else c['_state']
             ctrs.append(cc)
+        # pods and containers that appeared while the plugin was not looking: a new pod with
+        # containers, a new container in a pod the plugin knows
+        if perturb and r.random() < perturb:
+            pod = self.new_pod()
+            pod['_state'] = 'run'
+            self.pods[pod['id']] = pod
+            pods.append({k: v for k, v in pod.items() if not k.startswith('_')})
+            for k in range(r.choice([1, 1, 2])):
+                c = self.new_ctr(pod, name='ctr%d' % k, milli=r.choice([0, 100, 500, 1000]) if pod['qos'] != 'BestEffort' else None, mem=r.choice([0, 64 * MiB]))
+                c['_state'] = r.choice(['running', 'running', 'created'])
+                self.ctrs[c['id']] = c
+                cc = {a: b for a, b in c.items() if not a.startswith('_')}
+                cc['state'] = c['_state']
+                ctrs.append(cc)
+        if perturb and r.random() < perturb and pods:
+            pod = self.pods[r.choice(pods)['id']]
+            names = {c['name'] for c in self.ctrs.values() if c['pod'] == pod['id']}
+            free = [n for n in ('ctr0', 'ctr1', 'ctr2', 'ctr3') if n not in names]
+            if free and pod.get('_state') == 'run':
+                c = self.new_ctr(pod, name=free[0], milli=r.choice([0, 100, 500]) if pod['qos'] != 'BestEffort' else None, mem=0)
+                c['_state'] = 'running'
+                self.ctrs[c['id']] = c
+                cc = {a: b for a, b in c.items() if not a.startswith('_')}
+                cc['state'] = c['_state']
+                ctrs.append(cc)
         return pods, ctrs
 
     def drain(self):
@@ -404,7 +429,19 @@ def gen_history(rng, policy, machine, machine_path, nevents=40, profile='mixed',
                     w.start(c)
         elif x < 0.40 and w.pods:
             pod = r.choice(list(w.pods.values()))
-            if pod.get('_state') == 'run':
+            mine = [c for c in w.ctrs.values() if c['pod'] == pod['id'] and c['_state'] in ('created', 'running')]
+            if pod.get('_state') == 'run' and mine and r.random() < 0.2:
+                # the runtime restarts a container: a new instance (new id) under the same pod and name is
+                # created before the plugin has seen the old one stop; the plugin retires the old instance
+                old = r.choice(mine)
+                c = w.new_ctr(pod, name=old['name'], milli=old.get('_milli'))
+                w.create(c)
+                w.events[-1]['tag'] = 'recreate'
+                w.events[-1]['replaces'] = old['id']     # StopContainer/RemoveContainer of the old instance arrive later
+                old['_state'] = 'retired'                  # the runtime lists it as stopped from now on
+                if r.random() < 0.7:
+                    w.start(c)
+            elif pod.get('_state') == 'run':
                 names = {c['name'] for c in w.ctrs.values() if c['pod'] == pod['id']}
                 free = [n for n in ('ctr0', 'ctr1', 'ctr2', 'ctr3') if n not in names]
                 if free:
